@@ -170,10 +170,21 @@ def case_hist(spec, workdir):
     rng = np.random.default_rng(spec["seed"])
     fmt, mode = spec["fmt"], spec["mode"]
     base = os.path.join(workdir, "pyr")
-    pio = PyramidIO(base, default_format=fmt)
+    # the pyramid's default format may differ from the format the caller names explicitly in every call
+    explicit = R.random() < 0.4
+    dflt = fmt if not explicit else R.choice([f for f in ("png", "npy", "fits") if f != fmt])
+    pio = PyramidIO(base, default_format=dflt)
+    fkw = dict(format=fmt) if explicit else {}
     pos = Pos(2, R.randrange(4), R.randrange(4))
     im = getattr(ImageMode, mode)
     probs = []
+    bystander = None
+    if explicit and mode not in ("RGB",):
+        # an unrelated, defined tile in the DEFAULT format at the same position: nothing done in format `fmt` may touch it
+        bmode = dict(png="RGBA", npy="F32", fits="F32")[dflt]
+        _, ba = rand_image(rng, bmode, 256, 256, 0.2)
+        tilegen.write_tile(base, tuple(pos), dflt, ba[::-1] if dflt == "fits" else ba)
+        bystander = (dflt, ba)
     model = None  # array in storage orientation or None
     # prior state
     prior = R.choice(["none", "valid", "otherformat"])
@@ -183,8 +194,8 @@ def case_hist(spec, workdir):
             tilegen.write_tile(base, tuple(pos), fmt, a[::-1] if fmt == "fits" else a)
             model = a
     elif prior == "otherformat":
-        other = "npy" if fmt != "npy" else "png"
-        oa = rng.integers(0, 255, (256, 256, 4), dtype=np.uint8) if other == "png" else np.zeros((256, 256), np.float32)
+        other = [f for f in ("npy", "png", "fits") if f not in (fmt, dflt)][0]
+        oa = rng.integers(0, 255, (256, 256, 4), dtype=np.uint8) if other == "png" else np.ones((256, 256), np.float32)
         tilegen.write_tile(base, tuple(pos), other, oa)
     path = os.path.join(base, tilegen.tile_relpath(tuple(pos), fmt))
     ops = []
@@ -195,23 +206,23 @@ def case_hist(spec, workdir):
         ops.append(op)
         if op == "write":
             img, a = rand_image(rng, mode, 256, 256, R.choice([0.0, 0.5, 0.99]))
-            pio.write_image(pos, Image.from_array(a.copy(), default_format=fmt))
+            pio.write_image(pos, Image.from_array(a.copy(), default_format=fmt), **fkw)
             model = None if indep_undefined(a, mode) else a
         elif op == "write_masked":
             buf = im.make_maskable_buffer(256, 256)
             buf.clear()
-            pio.write_image(pos, buf)
+            pio.write_image(pos, buf, **fkw)
             # integer tiles have no unambiguous undefined value (zero is also data; toasty declares them never completely
             # masked): the "never stored" clause is demanded for NaN / alpha-0 modes only
             model = None if indep_undefined(np.asarray(buf.asarray()), "RGBA" if mode == "RGB" else mode) else np.array(buf.asarray())
         elif op in ("read_none", "read_masked", "read_bad"):
             try:
                 if op == "read_none":
-                    got = pio.read_image(pos, default="none")
+                    got = pio.read_image(pos, default="none", **fkw)
                 elif op == "read_masked":
-                    got = pio.read_image(pos, default="masked", masked_mode=im)
+                    got = pio.read_image(pos, default="masked", masked_mode=im, **fkw)
                 else:
-                    got = pio.read_image(pos, default="nonsense")
+                    got = pio.read_image(pos, default="nonsense", **fkw)
                 raised = None
             except ValueError as e:
                 got, raised = None, e
@@ -241,7 +252,7 @@ def case_hist(spec, workdir):
                 # an RGB source updates an RGBA buffer; an existing 3-channel tile is not a maskable buffer (documented limitation): skip
                 ops[-1] = "update_skipped"
                 continue
-            with pio.update_image(pos, masked_mode=img.mode, default="masked") as basis:
+            with pio.update_image(pos, masked_mode=img.mode, default="masked", **fkw) as basis:
                 img.update_into_maskable_buffer(basis, slice(None), slice(None), slice(None), slice(None))
             prior_a = model if model is not None else tilegen.undefined_like(a, (256, 256))
             new = contracts.reference_update(a, mode, np.array(prior_a), slice(None), slice(None), slice(None), slice(None))
@@ -257,9 +268,16 @@ def case_hist(spec, workdir):
             if disk.shape != model.shape or not np.array_equal(disk, model, equal_nan=model.dtype.kind == "f"):
                 probs.append(("file-content", "step %d (%s): file content differs from the model (independent reader)" % (step, ops[-1])))
                 break
-        if os.path.exists(path + ".lock") and False:
-            pass
-    r = dict(counters={"histories": 1, "history_steps": len(ops), "pair_%s_%s" % (fmt, mode): 1}, nontrivial=len(set(ops)) >= 3,
+        if bystander is not None:
+            bd = tilegen.read_tile(base, tuple(pos), bystander[0])
+            if bd is None:
+                probs.append(("bystander-destroyed", "step %d (%s in format %s): the unrelated %s tile at the same position was removed" % (step, ops[-1], fmt, bystander[0])))
+                break
+            bd = bd[::-1] if bystander[0] == "fits" else bd
+            if not np.array_equal(bd, bystander[1], equal_nan=bystander[1].dtype.kind == "f"):
+                probs.append(("bystander-destroyed", "step %d (%s in format %s): the unrelated %s tile at the same position was modified" % (step, ops[-1], fmt, bystander[0])))
+                break
+    r = dict(counters={"histories": 1, "history_steps": len(ops), "pair_%s_%s" % (fmt, mode): 1, "histories_explicit_format": int(explicit)}, nontrivial=len(set(ops)) >= 3,
              sets=dict(fmt_mode=[[fmt, mode]]), sample=dict(spec=spec, prior=prior, ops=ops))
     if probs:
         keys = sorted({k for k, _ in probs})
